@@ -149,6 +149,21 @@ CHECKS = {
         note=('Trusted: Coq kernel + vm_compute; backbone distances from numpy shipped as exact rationals; residue '
               'reconstruction in the harness; GoPipeline glue and contact-map file reading are not modelled.'),
         technique='Coq proof (list induction for the sites; loop invariant relating the stored list to all earlier eligible contacts; walk reversal) + in-Coq correspondence'),
+    'C19': dict(
+        category='proof',
+        text=('Coq theorems about a model of parse_residue_spec, residue_matches/_terminal_matches, annotate_modifications '
+              'and the reporting rule of AnnotateMutMod.run_system: a residue matches a request iff it agrees with every '
+              'given part (nter/cter: protein residue with a single neighbour of higher/lower number); the labels on an atom '
+              'are exactly the requests matching its residue (all atoms of a residue alike, no other residue); a request is '
+              'reported iff it matches no residue of the whole system; an unknown target that matches is an error. Tie: '
+              'real parser on specification strings (plus an independent spell-back oracle), real AnnotateMutMod.run_system '
+              'with captured warnings on generated systems; marks and reports compared with the model and with the '
+              'statement evaluated from the INTENDED parts of each request in Coq.'),
+        design_ref='DESIGN.md section 5, C19',
+        note=('Trusted: Coq kernel + vm_compute; residue graph (degree, first neighbour, protein flag) taken from the real '
+              'make_residue_graph; the post-repair clause (atoms of the requested block) is covered by C04, not here; '
+              'parse/format round trip validated, not proved.'),
+        technique='Coq proof (characterisation of matching, list reasoning for marks and reports) + in-Coq correspondence with an independent parse oracle'),
 }
 NOT_APPLICABLE = {}
 PENDING_REASON = 'not yet claimed: model and proofs for this property are still being built (see DESIGN.md staging); no check is registered so nothing is asserted'
